@@ -25,6 +25,10 @@ import (
 	"strings"
 )
 
+// maxImportedNodes is the limit on the total number of nodes inserted by
+// import directives while reading a single file.
+const maxImportedNodes = 1 << 16
+
 func (ctx *parseContext) expandImports(node Node, expansionDepth int) (Node, error) {
 	// Leave nil value as is because it is used as non-existent block indicator
 	// (vs empty slice - empty block).
@@ -56,6 +60,14 @@ func (ctx *parseContext) expandImports(node Node, expansionDepth int) (Node, err
 			subtree, err := ctx.resolveImport(child, child.Args[0], expansionDepth)
 			if err != nil {
 				return node, err
+			}
+
+			// A snippet that imports itself several times multiplies the tree
+			// on every expansion round, so the depth limit alone does not bound
+			// the work: also bound the number of nodes brought in by imports.
+			ctx.importedNodes += len(subtree)
+			if ctx.importedNodes > maxImportedNodes {
+				return node, NodeErr(child, "hit import expansion limit")
 			}
 
 			newChildrens = append(newChildrens, subtree...)
